@@ -38,7 +38,7 @@ from urllib.parse import urlsplit
 from harness.common import exc_token, tok_str
 from vk.core import Case, Ctx
 
-GEN_MODULES: List[str] = ["C14Types", "C08Types"]
+GEN_MODULES: List[str] = ["C14Types", "C08Types", "C06Types"]
 MANIFEST = {
     "design_ref": "§5 C14",
     "text": ("Lean theorems over the executable tree-level model of server.py's HTTP side composed with the client "
@@ -49,8 +49,10 @@ MANIFEST = {
              "object reaches the handler with the same typed values and returns the handler's typed results), "
              "handler_error_propagates (same UPnP code), bad_request_never_unhandled / invalid_request_rejected / "
              "invalid_request_judged (for every request tree and header: SOAP fault or 4xx, never an escaping exception), "
-             "client_sees_definition_c05 (C05's factory model with C08's coercers for all 26 types, applied to the served SCPD, "
-             "equals C05's mirror of the description it denotes), gen_types_ok over the generated type table. The model is tied to the code by that table (const.py) and a "
+             "client_sees_definition_c05 / client_sees_device_tree_c05 (C05's factory model with C08's coercers for all 26 types, "
+             "run against the served device document and SCPDs, equals C05's mirror of the description they denote, via "
+             "factory_mirror), call_request_c06 (C06's create_request, read back by body_reads_back, reaches the C14 "
+             "handler with the caller's values, up to the codec interface), judge_*_in_mirror, gen_types_ok over the generated type table. The model is tied to the code by that table (const.py) and a "
              "differential check of served documents, client model, handler inputs, results and statuses; the Lean judge "
              "is evaluated on the implementation's observations; the mocked-request path is cross-checked against a real "
              "HTTP server on loopback."),
